@@ -53,8 +53,9 @@ def check_case(ctx, case, enum=False):
         ctx.event("skipped:overlong-digest-notruncate")
         return
     if not at_eff and 8 * len(digest) > n.bit_length():
-        ctx.event("skipped:e-unspecified")
-        return
+        # the statement of C03 leaves e open here; recovery only has to agree with sign / verify, which take
+        # the whole digest as the integer when truncation is off
+        ctx.event("e-taken-whole(no-truncation)")
     e = SU.e_of(digest, n, at_eff)
     rs = rdsa.sign(d.ref, dd, k, e)
     if rs == "RS-ZERO":
@@ -66,12 +67,15 @@ def check_case(ctx, case, enum=False):
     ctx.ev()
     ctx.case_sample(dict(case, r=r, s=s))
     try:
+        # when the wanted setting equals the documented default the argument is left out half of the time
+        implicit = case.get("implicit", (dd + k) % 2 == 0)
         if entry == "data":
-            keys = VerifyingKey.from_public_key_recovery(sig, payload, d.lib, hashfunc=hf, sigdecode=DEC[decn],
-                                                         allow_truncate=at)
+            kwargs = {} if (implicit and at is True) else {"allow_truncate": at}
+            keys = VerifyingKey.from_public_key_recovery(sig, payload, d.lib, hashfunc=hf, sigdecode=DEC[decn], **kwargs)
         else:
+            kwargs = {} if (implicit and at is False) else {"allow_truncate": at}
             keys = VerifyingKey.from_public_key_recovery_with_digest(sig, digest, d.lib, hashfunc=hf,
-                                                                     sigdecode=DEC[decn], allow_truncate=at)
+                                                                     sigdecode=DEC[decn], **kwargs)
     except Exception as ex:
         # which candidate is degenerate?
         inf = _candidate_at_infinity(d, r, s, e)
